@@ -1,20 +1,24 @@
-"""Helper of the C01 pack: symbolic evaluation of one `sa.paths.Path`.
+"""Helper of the C01 pack: path-wise copy propagation (def-use resolution along ONE enumerated path).
 
-A path (sequence of statement / condition events) is replayed with a tiny term
-language so that rules can talk about *values* instead of variable names:
+`sa.paths` enumerates the syntactic paths of a function together with the truth value of the branch
+atoms (a row of a decision table).  sa.tables inlines only single-definition locals; parser and evaluator
+code re-binds locals (`left = create_node(OrNode, left, ...)`, `val1, val2 = val2, val1`), so the outcome
+of a row has to be written in terms of the *reaching definition* of every local at that point of the path.
+This module does exactly that and nothing else: it substitutes reaching definitions and returns the
+**normalised expression shape** of outcomes, conditions and effects:
 
-    ('const', v)                               literal
+    ('const', v)                               literal as written
     ('name', 'self.current')                   free name / attribute chain on a free root (parameters, globals)
-    ('call', seq, fname, recv, args, kws)      a call; `seq` numbers calls in evaluation order (call identity),
-                                               fname is the dotted callee when it is rooted at a free name
-                                               ('self.e3', 'isinstance', 'copy.deepcopy'); for a method of a computed
-                                               value fname is '.meth' and recv the receiver term
-    ('attr', term, name) ('sub', term, idx)    attribute / subscript of a computed value
-    ('op', OpName, operands)                   BinOp / UnaryOp / Compare / BoolOp
+    ('call', seq, fname, recv, args, kws)      a call left UNINTERPRETED; `seq` is its position in evaluation order
+                                               (so two textually equal calls `self.e3()` stay distinct operands);
+                                               fname is the dotted callee when rooted at a free name, else '.meth' + recv
+    ('attr', term, name) ('sub', term, idx)    attribute / subscript of such a term, uninterpreted
+    ('op', OpName, operands)                   BinOp / UnaryOp / Compare / BoolOp, uninterpreted (no arithmetic, no folding)
     ('tuple'|'list'|'set', elems) ('dict', items) ('ifexp', t, a, b) ('item', iterable, n) ('expr', text)
 
-Locals are resolved through the environment, so renaming a local, introducing a
-temporary or inlining one does not change any term.  Nothing is executed.
+No input value is assumed, nothing is computed, no callee body is entered: a term only says *which expression,
+over which operands in which roles* a row returns / tests / stores.  Renaming a local, introducing a temporary
+or inlining one does not change any term - that is what makes the rules built on it refactoring-proof.
 """
 from __future__ import annotations
 
@@ -113,7 +117,7 @@ def show(t: T.Any, depth: int = 0) -> str:
     return k + '(...)'
 
 
-class Evaluator:
+class PathResolver:
     def __init__(self, sp: SymPath, params: T.Iterable[str] = ()):
         self.sp = sp
         self.seq = 0
@@ -319,5 +323,5 @@ def sym_paths(fn: T.Union[ast.FunctionDef, ast.AsyncFunctionDef], *, body: T.Opt
               unroll: int = 1, handlers: bool = False, pure: T.Optional[T.Set[str]] = None) -> T.List[SymPath]:
     out = []
     for p in enumerate_paths(body if body is not None else fn.body, unroll=unroll, handlers=handlers, pure=pure or set()):
-        out.append(Evaluator(SymPath(p)).run())
+        out.append(PathResolver(SymPath(p)).run())
     return out
